@@ -905,3 +905,115 @@ def check_C05(ck, res, replay):
     run_adf_check(ck, res, replay, "C05", ng_queries, 1500, 30000, nmax_q=7, nmax_t=9, tt3_q=500, tt3_t=20000,
                   ties=("TieLeaf", "TieMoreModels", "TieFlagRand"), seeds=True, case_timeout=8000)
     return ck.finish(res, "proof", ASSUME_COMMON + ["rand::StdRng is an abstract stream of u64 draws, reproduced by an identically seeded generator in the harness"])
+
+
+# ====================================================================== C12 feature configurations
+FEATURE_SETS = []
+for _adhoc, _af in ((0, []), (1, ["adhoccounting"]), (2, ["adhoccounting", "adhoccountmodels"])):
+    for _vl in (0, 1):
+        for _fe in (0, 1):
+            FEATURE_SETS.append(("a%dv%df%d" % (_adhoc, _vl, _fe), "a%dv%d" % (_adhoc, _vl),
+                                 _af + (["variablelist"] if _vl else []) + (["frontend"] if _fe else [])))
+DEFAULT_SET = "a1v1f1"
+
+
+def build_variants(ck, res, sets):
+    """cargo build of the harness under each feature set (own target dir, 4 builds at a time)"""
+    import concurrent.futures
+    bins = {}
+    def one(s):
+        tag, cfg, feats = s
+        r2 = ck.Result(res.pid, res.tier, res.seed)
+        b = ck.build_harness(r2, features=feats, tag=tag)
+        return tag, b, r2.broken
+    with concurrent.futures.ThreadPoolExecutor(max_workers=4) as ex:
+        for tag, b, broken in ex.map(one, sets):
+            bins[tag] = b
+            res.broken.extend(broken)
+    return bins
+
+
+def check_C12(ck, res, replay):
+    common_front(ck, res, "C12", ties=["TieFlagDepth"])
+    bins = build_variants(ck, res, FEATURE_SETS)
+    rng = gen.Rng(res.seed ^ 0xC12)
+    quick = res.tier == "quick"
+    progs, adfs = [], []
+    if replay:
+        r = json.load(open(replay))
+        (progs if r["kind"].startswith("PROG") else adfs).append((r["body"], r["meta"]))
+    else:
+        for _ in range(150 if quick else 4000):
+            nv = 2 + rng.below(6)
+            kind, body = gen.gen_prog(rng, nv, 8 + rng.below(30), queries=True)
+            nreg = sum(1 for l in body if not l.startswith("q"))
+            for _ in range(5):
+                a = rng.below(nreg)
+                body.append("q " + rng.pick(["paths %d %d" % (a, rng.below(2)), "models %d %d" % (a, rng.below(2)), "depth %d" % a, "deps %d" % a]))
+            progs.append((body, {"nvars": nv}))
+        for text, origin in adf_case_stream(res, rng, 80 if quick else 2500, 7, with_tt2=False):
+            qs = [["grounded"], ["complete"], ["stable"], ["stmca"], ["stmng", "MinModMinPathsMaxVarImp"], ["counts", "0"]]
+            adfs.append((["text " + gen.hexs(text), "sort none"] + ["q " + " ".join(q) for q in qs], {"text": text, "queries": qs}))
+    outs = {}
+    models = {}
+    total = 0
+    for tag, cfg, feats in FEATURE_SETS:
+        cf = gen.CaseFile()
+        for body, meta in progs:
+            cf.add("PROG " + cfg, body, prefix="p", meta=meta)
+        for body, meta in adfs:
+            cf.add("ADF", body + ["cfg " + cfg], prefix="a", meta=meta)
+        impl, model = correspond(ck, res, cf, bins.get(tag), "C12." + tag)
+        outs[tag], models[tag] = impl, model
+        total += len(cf.meta)
+        last_cf = cf
+    base = outs[DEFAULT_SET]
+    def norm(lines, cfg):
+        # the documented exception: memoised model counting with ad-hoc paths but without ad-hoc models
+        out = []
+        for l in (lines or []):
+            if " table " in l or l.startswith("table") or l.startswith("ac "):
+                continue
+            out.append(l)
+        return out
+    memo_models = {}
+    for cid, (kind, body, meta) in last_cf.meta.items():
+        if kind.startswith("PROG"):
+            qi = 0
+            for l in body:
+                if l.startswith("q "):
+                    if l.startswith("q models") and l.split()[3] == "1":
+                        memo_models.setdefault(cid, set()).add("q%d" % qi)
+                    qi += 1
+    nontriv = set()
+    mism = 0
+    for tag, cfg, feats in FEATURE_SETS:
+        for cid, (kind, body, meta) in last_cf.meta.items():
+            a, d, m = outs[tag].get(cid), base.get(cid), models[tag].get(cid)
+            drop = memo_models.get(cid, set())
+            fa = [l for l in norm(a, cfg) if l.split()[0] not in drop]
+            fd = [l for l in norm(d, cfg) if l.split()[0] not in drop]
+            fm = [l for l in norm(m, cfg) if not (cfg.startswith("a1") and l.split()[0] in drop)]
+            fa_m = [l for l in norm(a, cfg) if not (cfg.startswith("a1") and l.split()[0] in drop)]
+            if len(body) > 8:
+                nontriv.add((tag, tuple(body)))
+            if fa != fd:
+                diff = [(x, y) for x, y in zip(fa, fd) if x != y][:1]
+                what = "feature set %s answers differently from the default build: %s" % (tag, diff)
+                qk = diff[0][0].split()[1] if diff and len(diff[0][0].split()) > 1 else "other"
+                res.violations.append({"key": "cfg:%s:%s" % (qk, cfg.split("v")[0]), "what": what, "kind": kind, "body": body, "meta": meta,
+                                       "observed": a, "default": d, "feature_set": feats})
+            if fa_m != fm:
+                mism += 1
+                if mism <= 5:
+                    res.broken.append(("correspondence", "feature set %s case %s: implementation and model differ" % (tag, cid),
+                                       json.dumps({"body": body, "impl": a, "model": m})[:2000]))
+    res.cov["evaluations"] = total
+    res.cov["distinct_nontrivial"] = len(nontriv)
+    res.cov["rule"] = ("the same random programs with queries (paths / models naive+memoised / depth / deps) and the same ADFs with all semantics run on the "
+                       "harness built under each of the 12 feature sets; every set compared with the default build (memoised models excluded where documented) "
+                       "and with the Coq model evaluated under the same configuration; non-trivial = case with more than 8 lines, per feature set")
+    res.cov["samples"] = [progs[0][0]] if progs else [adfs[0][0]]
+    res.extra["feature_sets"] = [t for t, _, _ in FEATURE_SETS]
+    res.extra["model_mismatches"] = mism
+    return ck.finish(res, "proof", ASSUME_COMMON + ["cargo feature unification as declared in lib/Cargo.toml (regenerated into Gen/GenFeatures.v)"])
